@@ -260,7 +260,13 @@ func debugOnlyDiagnostics(c Cfg, rec *Recorder) *Disc {
 		if on.Called != off.Called || on.Body != off.Body || hdrSig(map[string][]string{"v": on.Hdr[hVary]}) != hdrSig(map[string][]string{"v": off.Hdr[hVary]}) {
 			return discf("debug mode changes handler invocation, body or Vary of a preflight: %s", where)
 		}
+		refusedOff := !(off.Status == c.SuccessStatus() && len(off.Hdr[hACAO]) > 0)
 		for k := range on.Hdr {
+			if _, inOff := off.Hdr[k]; !inOff && refusedOff && !strings.HasPrefix(k, "Access-Control-") && k != hVary {
+				// a further diagnostic attached to a failing preflight (say X-Cors-Reason): the statement's list of
+				// diagnostics is read as examples, not as exhaustive; CORS headers and Vary are judged below
+				continue
+			}
 			if !preflightHdr(k) && hdrSig(map[string][]string{k: on.Hdr[k]}) != hdrSig(map[string][]string{k: off.Hdr[k]}) {
 				return discf("debug mode changes header %s, which is not a preflight diagnostic: %s", k, where)
 			}
